@@ -367,6 +367,57 @@ def generate(api):
                             r"doc\s*\.\s*attrs\s*\[\s*idx\s*\]\s*\.\s*value\s*=\s*roxmltree\s*::\s*StringStorage\s*::\s*Borrowed\s*\(\s*\"none\"\s*\)\s*;", fb)),
          "fix_recursive_fe_image removes the filter of an feImage target that uses the filter the feImage is in")
 
+    # ---------------------------------------------------------------- pre-pass: what the scans range over (frame clause)
+    fb = fn_body(psrc, 'find_recursive_link') or ''
+    setg('G_PRE_LINK_SCOPE',
+         bool(re.search(r"for\s+node\s+in\s+doc\s*\.\s*root\s*\(\s*\)\s*\.\s*descendants\s*\(\s*\)\s*\.\s*filter\s*\(\s*\|\s*n\s*\|\s*n\s*\.\s*tag_name\s*\(\s*\)\s*==\s*Some\s*\(\s*eid\s*\)\s*\)\s*"
+                        r"\{\s*for\s+child\s+in\s+node\s*\.\s*descendants\s*\(\s*\)\s*\{\s*if\s+let\s+Some\s*\(\s*link\s*\)\s*=\s*child\s*\.\s*node_attribute\s*\(\s*aid\s*\)\s*\{", fb))
+         and len(re.findall(r"\breturn\s+Some\b", fb)) == 2,
+         "find_recursive_link looks only at elements named `eid` and, first, only at references held by their own descendants")
+    fb = fn_body(psrc, 'find_recursive_pattern') or ''
+    setg('G_PRE_PAT_SCOPE',
+         bool(re.search(r"for\s+pattern_node\s+in\s+doc\s*\.\s*root\s*\(\s*\)\s*\.\s*descendants\s*\(\s*\)\s*\.\s*filter\s*\(\s*\|\s*n\s*\|\s*n\s*\.\s*tag_name\s*\(\s*\)\s*==\s*Some\s*\(\s*EId\s*::\s*Pattern\s*\)\s*\)\s*"
+                        r"\{\s*for\s+node\s+in\s+pattern_node\s*\.\s*descendants\s*\(\s*\)\s*\{\s*let\s+value\s*=\s*match\s+node\s*\.\s*attribute\s*\(\s*aid\s*\)", fb))
+         and bool(re.search(r"for\s+node2\s+in\s+linked_node\s*\.\s*descendants\s*\(\s*\)\s*\{\s*let\s+value2\s*=\s*match\s+node2\s*\.\s*attribute\s*\(\s*aid\s*\)", fb))
+         and len(re.findall(r"\breturn\s+Some\b", fb)) == 2,
+         "find_recursive_pattern looks only at pattern elements and, first, only at paints of their own descendants")
+
+    # ---------------------------------------------------------------- nested documents (image / feImage -> load_sub_svg)
+    IMG = 'crates/usvg/src/parser/image.rs'
+    miss3 = []
+    isrc = rd(IMG)
+    sb = fn_body(isrc, 'load_sub_svg') or ''
+    mo = re.search(r"let\s+sub_opt\s*=\s*Options\s*\{", sb)
+    lit = ''
+    if mo:
+        j = close_brace(sb, mo.end() - 1)
+        lit = sb[mo.end():j] if j is not None else ''
+    mr = re.search(r"\bimage_href_resolver\s*:\s*ImageHrefResolver\s*\{", lit)
+    rlit = ''
+    if mr:
+        j = close_brace(lit, mr.end() - 1)
+        rlit = lit[mr.end():j] if j is not None else ''
+    g_data = bool(re.search(r"\bresolve_data\s*:\s*Box\s*::\s*new\s*\(\s*\|\s*_\s*,\s*_\s*,\s*_\s*\|\s*None\s*\)", rlit))
+    g_string = bool(re.search(r"\bresolve_string\s*:\s*Box\s*::\s*new\s*\(\s*\|\s*_\s*,\s*_\s*\|\s*None\s*\)", rlit))
+    n_from = 0
+    for path in sorted(_glob.glob(_os.path.join(base, '**', '*.rs'), recursive=True)):
+        try:
+            n_from += len(re.findall(r"\bTree\s*::\s*from_\w+\s*\(", strip_comments(open(path, encoding='utf-8').read())))
+        except OSError:
+            pass
+    g_used = (bool(mo) and len(re.findall(r"\bTree\s*::\s*from_\w+\s*\(", sb)) == 1 and n_from == 1
+              and bool(re.search(r"Tree\s*::\s*from_data\s*\(\s*data\s*,\s*&\s*sub_opt\s*\)", sb))
+              and not re.search(r"\bsub_opt\s*\.\s*\w+\s*=[^=]|let\s+mut\s+sub_opt\b", sb)
+              and len(re.findall(r"\blet\s+sub_opt\b", sb)) == 1)
+    for name, val, why in (
+            ('G_SUB_OPT_USED', g_used, "load_sub_svg parses the sub-document with its own `sub_opt`, and that is the only Tree::from_* call in parser/** (found %d)" % n_from),
+            ('G_SUB_DATA_NONE', g_data, "the sub-document's resolve_data returns None (no nested data: documents)"),
+            ('G_SUB_STRING_NONE', g_string, "the sub-document's resolve_string returns None (no nested files)")):
+        G[name] = bool(val)
+        notes[name] = why
+        if not val:
+            miss3.append("%s (%s)" % (name, why))
+
     out = [api.HEADER,
            "(* Guards of usvg's reference handling as found in the source (tools/gen_links.py). *)",
            "From Coq Require Import ZArith List.\nImport ListNotations.\n",
